@@ -1,5 +1,5 @@
 (* C17 driver (Model/Expand.v, Model/Setup.v).
-   line: expand TAB world TAB env TAB top TAB plist TAB force TAB lines TAB rawdeps [TAB jfix,sfix]
+   line: expand TAB world TAB env TAB top TAB plist TAB force TAB lines TAB rawdeps [TAB jfix,sfix,cfix]
      world   = product|product...     product = name:version:dir:act+act...     (as in drv_c01.ml)
      env     = k=v;k=v                plist = k=v;k=v
      lines   = line|line...           line = B | C,text | O,text
@@ -82,13 +82,14 @@ let handle (f : Stdlib.String.t array) : Stdlib.String.t =
     let force = bool_of_field f.(5) in
     let ls = Stdlib.List.map dec_line (split_sep '|' f.(6)) in
     let rd = Stdlib.List.map dec_raw (split_sep '|' f.(7)) in
-    let (jfix, sfix) =
+    let (jfix, sfix, cfix) =
       if Array.length f > 8 then
         (match Stdlib.String.split_on_char ',' f.(8) with
-         | [a; b] -> (bool_of_field a, bool_of_field b)
+         | [a; b] -> (bool_of_field a, bool_of_field b, true)
+         | [a; b; c] -> (bool_of_field a, bool_of_field b, bool_of_field c)
          | _ -> failwith "bad variant")
-      else (true, true) in
-    (match expand_gen jfix sfix w e top plist force rd ls with
+      else (true, true, true) in
+    (match expand_gen jfix sfix cfix w e top plist force rd ls with
      | Ok out -> "ok\t" ^ Stdlib.String.concat "|" (Stdlib.List.map (fun o -> let s = enc_str (render o) in if s = "" then "%" else s) out)
      | Err k -> "err\t" ^ err_name k)
   | "req" ->
